@@ -36,3 +36,51 @@ pub open spec fn wr(d: Seq<u8>, p: int, bytes: Seq<u8>) -> Seq<u8> {
         |i: int| if p <= i < p + bytes.len() { bytes[i - p] } else if i < d.len() { d[i] } else { 0u8 },
     )
 }
+
+// ---------------------------------------------------------------- box header (ISO/IEC 14496-12 section 4.2)
+//   aligned(8) class Box (unsigned int(32) boxtype) {
+//       unsigned int(32) size; unsigned int(32) type = boxtype;
+//       if (size==1) { unsigned int(64) largesize; } else if (size==0) { /* box extends to end of file */ } }
+//
+// The crate's convention (BoxHeader::size for the 64-bit form is largesize-8 so that callers can keep assuming an
+// 8-byte header) is pinned here as `start + size == header_start + total_size` with start = pos_after_header - 8.
+
+/// what a successful header read must have seen: p = position of the header, q = position after it
+pub open spec fn hdr_read_ok(d: Seq<u8>, p: int, name: BoxType, size: u64, q: int) -> bool {
+    let sz = be32(d, p);
+    let ty = be32(d, p + 4);
+    &&& 0 <= p
+    &&& name == spec_boxtype_of_u32(ty)
+    &&& if sz == 1 {
+            let large = be64(d, p + 8);
+            &&& p + 16 <= d.len()
+            &&& q == p + 16
+            &&& (large == 0 || large >= 16)
+            &&& size == (if large == 0 { 0 } else { (large - 8) as u64 })
+            // same payload range as the compact form would give: (q - 8) + size == p + large
+        } else {
+            &&& p + 8 <= d.len()
+            &&& q == p + 8
+            &&& size == sz as u64
+        }
+}
+
+/// the only non-I/O rejection: 64-bit form with 1 <= largesize <= 15
+pub open spec fn hdr_read_rejects(d: Seq<u8>, p: int) -> bool {
+    &&& 0 <= p && p + 16 <= d.len()
+    &&& be32(d, p) == 1
+    &&& 1 <= be64(d, p + 8) <= 15
+}
+
+pub open spec fn hdr_len(size: u64) -> u64 {
+    if size > 0xffff_ffff { 16 } else { 8 }
+}
+
+/// bytes of a header announcing `size` total bytes for box type code `ty`
+pub open spec fn hdr_bytes(size: u64, ty: u32) -> Seq<u8> {
+    if size > 0xffff_ffff {
+        be_bytes(1, 4) + be_bytes(ty as nat, 4) + be_bytes(size as nat, 8)
+    } else {
+        be_bytes(size as nat, 4) + be_bytes(ty as nat, 4)
+    }
+}
